@@ -2870,6 +2870,61 @@ func runC17(c *Ctx) {
 		}
 	}
 
+	// R17.7 a token range recorded for a hash window ends inside the token list: the End stored into a TokenRange by a method
+	// of the token list is dominated by a comparison End <= len(tokens). (A window recorded past the last token gives a
+	// candidate whose target range indexes beyond the target's tokens.)
+	{
+		nTR := 0
+		for _, fn := range pkgFuncs(p, tkPkg) {
+			if fn.Signature.Recv() == nil || len(fn.Params) == 0 {
+				continue
+			}
+			recv := fn.Params[0]
+			if _, isSl := recv.Type().Underlying().(*types.Slice); !isSl {
+				continue
+			}
+			for _, b := range fn.Blocks {
+				for _, in := range b.Instrs {
+					st, ok := in.(*ssa.Store)
+					if !ok {
+						continue
+					}
+					fa, ok := st.Addr.(*ssa.FieldAddr)
+					if !ok || core.FieldName(fa) != "End" || !strings.HasSuffix(core.TypeName(fa.X.Type()), "tokenizer.TokenRange") {
+						continue
+					}
+					if _, isLit := fa.X.(*ssa.Alloc); !isLit {
+						continue
+					}
+					nTR++
+					bounded := false
+					want := core.LinOf(st.Val, nil)
+					for _, f := range core.FactsAt(b) {
+						cmp, ok := f.AsCmp()
+						if !ok {
+							continue
+						}
+						x, y, op := cmp.X, cmp.Y, cmp.Op
+						if op == token.GEQ {
+							x, y, op = y, x, token.LEQ
+						}
+						if op != token.LEQ {
+							continue
+						}
+						if lc, isCall := y.(*ssa.Call); isCall {
+							if bi, isB := lc.Call.Value.(*ssa.Builtin); isB && bi.Name() == "len" && lc.Call.Args[0] == ssa.Value(recv) && core.LinOf(x, nil).Equal(want) {
+								bounded = true
+							}
+						}
+					}
+					c.R.Check(bounded, "R17.7", core.ShortFn(fn)+": a recorded token range ends inside the token list", p.Pos(st.Pos()), "End <= len(tokens) holds where the range is built",
+						"the End of a recorded token range is not bounded by the number of tokens: a window that reaches past the last token makes every candidate built from it index beyond the target's tokens (TargetRange panics)")
+				}
+			}
+		}
+		c.R.RequireMin("R17.7", "token ranges recorded by the token list", nTR, 1)
+	}
+
 	// R17.6 the two sides of a range are kept apart: what is stored into a Target* field of a MatchRange is computed from
 	// Target* fields of ranges (never from Src* fields) and the other way round. (A target bound taken from a source bound
 	// lies outside the target whenever the match sits further into the known text than into the unknown one.)
